@@ -79,7 +79,7 @@ def report_from_text(text, paired, minimal):
 def _generate(rng, tier):
     return gen.gen_case(rng, {
         "p_filters": 0.85, "p_redirect": 0.6, "p_untrimmed_opts": 0.6, "p_demux": 0.3, "p_combinatorial": 0.5,
-        "p_minimal_report": 0.25, "p_info": 0.1, "p_rename": 0.1, "p_modifiers": 0.5, "p_long_read": 0.02,
+        "p_minimal_report": 0.25, "p_info": 0.1, "p_rename": 0.1, "p_modifiers": 0.5, "p_long_read": 0.02, "p_devnull": 0.08,
     })
 
 
@@ -140,9 +140,18 @@ def judge(case, res, name):
     sink_n = 0
     sink_bp = [0, 0]
     nonempty = set()
+    unobserved = set()  # roles whose file(s) are /dev/null
+    bp_partial = False
     for d in dests:
         try:
-            f, r1, r2 = C.read_dest(res, d)
+            f, r1, r2, observed = C.read_dest_ex(res, d)
+            if observed == "none":
+                unobserved.add(d["role"])
+                continue
+            if observed != "both":
+                # one file of the pair is /dev/null: the other one alone carries the records
+                bp_partial = bp_partial or d["role"] == "sink"
+                r1, r2 = (r1 if observed == "r1" else r2), None
         except KeyError as e:
             out.append(C.V("output-missing", f"{name}: output file {e} was not created"))
             continue
@@ -186,12 +195,16 @@ def judge(case, res, name):
     # clause 3
     if rc["output"] != sink_n:
         out.append(C.V("output-count", f"{name}: report output={rc['output']} but the final output files hold {sink_n} records"))
-    if (bc["output_read1"] is not None and bc["output_read1"] != sink_bp[0]) or (paired and bc["output_read2"] is not None and bc["output_read2"] != sink_bp[1]) or bc["output"] != sum(sink_bp):
+    if bp_partial:
+        pass
+    elif (bc["output_read1"] is not None and bc["output_read1"] != sink_bp[0]) or (paired and bc["output_read2"] is not None and bc["output_read2"] != sink_bp[1]) or bc["output"] != sum(sink_bp):
         out.append(C.V("output-bp", f"{name}: report output bp {bc['output_read1']}/{bc['output_read2']} but files hold {sink_bp}"))
     # clause 4
     filt = {k: (v or 0) for k, v in rc["filtered"].items()}
     redirected_total = 0
     for role, cat in REDIRECT_CATEGORY.items():
+        if role in unobserved:
+            continue  # sent to /dev/null: like a category without a redirect file
         if role in per_role or any(d["role"] == role for d in dests):
             cnt = per_role.get(role, 0)
             redirected_total += cnt
@@ -355,7 +368,7 @@ def evaluate(case, ctx):
     if hv:
         return viols + hv
     if par.exit != 0:
-        if C.is_buffer_too_small(par):
+        if C.is_buffer_too_small(par, case):
             raise engine.Discard("buffer-too-small")
         viols.append(C.V("exit-status", f"par: exit status {par.exit}; stderr tail {par.stderr[-300:]!r}"))
     else:
